@@ -430,7 +430,13 @@ def run_check(pid, tier, seed, replay=None):
                 break
         k += n
     known = load_known(pid)
-    classify = getattr(mod, "classify", lambda desc, msg, known: None)
+    _classify = getattr(mod, "classify", lambda desc, msg, known: None)
+    _listed = set(k.get("id") for k in known)
+
+    def classify(desc, msg, known_):
+        """a module may only map a failure to a finding that known_findings.json lists"""
+        f = _classify(desc, msg, known_)
+        return f if f in _listed else None
     known_hits = {}
     for c in cases:
         if c.oracle is not None:
